@@ -1,14 +1,67 @@
 /-
   C02 — hex-string matches are exactly the documented occurrences.  Property theorems only
-  (helpers: Lemmas/Re*.lean).
+  (helpers: Lemmas/Re.lean, ReEval.lean, ReAlgebra.lean, ReChain.lean).
 -/
-import YaraModel.Lemmas.Re
+import YaraModel.Lemmas.ReAlgebra
 namespace YaraModel.C02
 open YaraModel.Re
 
-/-- The specification is self-consistent (see C03.ends_iff_Matches); restated for the hex fragment's use. -/
+/-- The specification is self-consistent: the set-of-end-positions semantics (what the compiled driver evaluates in
+    the correspondence runs) coincides with the independent relational semantics, for every node kind. -/
 theorem ends_iff_Matches (fl : Flags) (buf : Bytes) (r : Re) (p q : Nat) :
     q ∈ r.ends fl buf p ↔ Re.Matches fl buf r p q :=
   Re.ends_iff_Matches fl buf r p q
+
+/-- The driver's fast set evaluator answers exactly the specification at every offset inside the buffer. -/
+theorem driver_evaluates_spec (fl : Flags) (buf : Bytes) (r : Re) (o : Nat) (ho : o ≤ buf.size) (q : Nat) :
+    q ∈ r.endsSet fl buf [o] ↔ Re.Matches fl buf r o q := by
+  rw [endsSet_single fl buf r o ho q]; exact Re.ends_iff_Matches fl buf r o q
+
+/-- `split_sem`: a pattern `pre [n-m] post` (hex strings: byte mode, dot-all) matches `[p,q)` exactly when `pre` matches
+    some `[p,e)`, `post` matches some `[s,q)` and the gap `s - e` lies in `[n,m]` (inside the data).  This is the
+    re-joining rule of chained strings: `ending_offset + chain_gap_min ≤ match_offset ≤ ending_offset + chain_gap_max`
+    (scan.c `_yr_scan_verify_chained_string_match`), for ALL patterns, bounds and buffers. -/
+theorem split_sem (fl : Flags) (hd : fl.dotall = true) (hw : fl.wide = false) (buf : Bytes) (pre post : Re)
+    (n m : Nat) (g : Bool) (p q : Nat) :
+    Re.Matches fl buf (.cat pre (.cat (.rangeAny n m g) post)) p q ↔
+      ∃ e s, Re.Matches fl buf pre p e ∧ Re.Matches fl buf post s q ∧ e + n ≤ s ∧ s ≤ e + m ∧ (s = e ∨ s ≤ buf.size) := by
+  rw [cat_iff]
+  constructor
+  · rintro ⟨e, h1, h2⟩
+    rw [cat_iff] at h2
+    obtain ⟨s, hj, h3⟩ := h2
+    obtain ⟨k, a1, a2, rfl, a3⟩ := (rangeAny_iff hd hw n m g e s).1 hj
+    exact ⟨e, e + k, h1, h3, by omega, by omega, by omega⟩
+  · rintro ⟨e, s, h1, h3, a1, a2, a3⟩
+    refine ⟨e, h1, ?_⟩
+    rw [cat_iff]
+    exact ⟨s, (rangeAny_iff hd hw n m g e s).2 ⟨s - e, by omega, by omega, by omega, by omega⟩, h3⟩
+
+/-- instance: `01 [1-2] 03` on `01 AA 03 03` from offset 0 ends at 3 (gap 1) and at 4 (gap 2) -/
+example : (Re.cat (.lit 1) (.cat (.rangeAny 1 2 false) (.lit 3))).ends { dotall := true } #[1, 0xAA, 3, 3] 0 = [3, 4] := by decide
+
+/-- `decompose` (soundness): whatever is verified around an atom — the part before it, read backwards, the atom and the
+    part after it, read forwards — is a match of the whole pattern; the atom may sit at any depth (one-hole context
+    through concatenations, alternation branches and `+` bodies). -/
+theorem decompose_sound (fl : Flags) (buf : Bytes) (c : Ctx) (atom : Re) (p q : Nat)
+    (h : c.Through fl buf atom p q) : Re.Matches fl buf (c.fill atom) p q :=
+  through_sound c atom p q h
+
+/-- `decompose` (completeness): if one atom is chosen on every way through the pattern (the AND/OR atom tree: both
+    branches of an alternation contribute, one side of a concatenation suffices), every match of the whole pattern is
+    found from one of the atoms: forward from the atom + exhaustive backward from the atom = whole-pattern match. -/
+theorem decompose (fl : Flags) (buf : Bytes) (r : Re) (atoms : List (Ctx × Re)) (hc : Cover r atoms) (p q : Nat) :
+    Re.Matches fl buf r p q ↔ ∃ c a, (c, a) ∈ atoms ∧ c.Through fl buf a p q := by
+  constructor
+  · exact cover_complete hc p q
+  · rintro ⟨c, a, hin, ht⟩
+    have := through_sound c a p q ht
+    rwa [cover_fill hc c a hin] at this
+
+/-- instance: in `41 ( 42 43 | 44 ) 45` the atoms `42 43` and `44` (one per branch) cover the pattern -/
+example : Cover (.cat (.lit 0x41) (.cat (.alt (.cat (.lit 0x42) (.lit 0x43)) (.lit 0x44)) (.lit 0x45)))
+    [(.catR (.lit 0x41) (.catL (.altL .hole (.lit 0x44)) (.lit 0x45)), .cat (.lit 0x42) (.lit 0x43)),
+     (.catR (.lit 0x41) (.catL (.altR (.cat (.lit 0x42) (.lit 0x43)) .hole) (.lit 0x45)), .lit 0x44)] :=
+  .catR (.catL (.alt (.leaf _) (.leaf _)))
 
 end YaraModel.C02
